@@ -612,7 +612,8 @@ pub fn check_iter(ev: &Event, kind: u8, calls: &[bool], forget: bool, post: Opti
             3 => items_match(rem.get(1).into_iter().collect()),
             4 => items_match(if rem.len() >= 2 { vec![&rem[rem.len() - 2]] } else { vec![] }),
             5 => o.fin_hint.0 <= rem.len() && o.fin_hint.1.map_or(true, |u| u >= rem.len()),
-            6 => items_match(rem.iter().collect()),
+            6 | 9 | 12 => items_match(rem.iter().collect()),
+            10 | 11 | 13 | 14 | 15 => o.fin_count == rem.len() && o.fin_hint == (0, Some(0)),
             _ => items_match(rem.iter().rev().collect()),
         };
         st.countf(format_args!("c12_finisher_{}", FIN_NAMES[fin as usize]));
